@@ -70,3 +70,8 @@ claim("C01", "model_checking", E1,
       "For every configuration of a finite grid (4 targets x identity/diagonal/low-rank transformations x Euclidean/ExactNormal x step sizes x start points/momenta x maxdepth) EVERY answer vector of the scripted RNG (doubling directions x accept/reject of every merge) of the real nuts::draw is executed and compared with the reference NUTS on the recorded trajectory; a second pass probes every accept threshold at p_ref(1 -+ 1e-9); the exact kernel rows are assembled and detailed balance pi(z)P(z->z') = pi(z')P(z'->z) is asserted against exhaustive re-runs from every reachable z'; mirrored direction sequences reproduce the same trajectory and stopping depth.",
       "Trusted: R-nuts (common/rnuts.rs); the integrator (C02); the grid stands for the continuum; executions with a decision margin < 1e-7 are counted, not judged; depth <= 3 (4 thorough).",
       "exhaustive choice-tree exploration of the real transition function over an owned RNG seam, lock-step reference model, exact detailed-balance check", "4/C01")
+
+claim("C03", "model_checking", E1,
+      "Chain histories of the real NutsChain (diagonal / low-rank adaptation x Euclidean / ExactNormal, dims 0-2, maxdepth 0-3, mindepth 0/1, target_integration_time, tight/loose max_energy_error, adaptive and fixed step sizes, optional injected divergence), 2-3 draws deep, every direction and accept/reject answer within a reject budget of 2 (3): each history is replayed on an independent mirror chain whose recorded trajectories are judged by R-nuts (termination exactly when prescribed, selected index, depth, flags, number of U-turn products), and the real chain's positions, Progress and statistics (logp, gradient, energy, energy_error, depth, n_steps, index, flags) must agree bit for bit.",
+      "Trusted: R-nuts; the mirror loop (nuts::draw + adapt, c03.rs) as the chain-wiring reference; momentum scripted at Math::array_gaussian; jitter off. Flow presets and MCLMC chains are covered by C05/C06/C16/C18 only.",
+      "choice-tree exploration (deviation-bounded) of real chain histories over owned RNG/momentum seams, bit-exact differential oracle + reference NUTS", "4/C03")
